@@ -93,4 +93,25 @@ theorem release_eq (a : ReleaseAtoms) : Extracted.releaseCore a = releaseCore a 
 theorem early_exit_eq (a : ExitAtoms) : Extracted.earlyExitCore a = earlyExitCore a := by
   rcases a with ⟨x, y, z⟩; cases x <;> cases y <;> cases z <;> rfl
 
+theorem selector_parts_eq (a : OptAtoms) :
+    Extracted.selGroupCore a = optCore a ∧ Extracted.selKindCore a = optCore a ∧
+    Extracted.selPluralCore a = optCore a ∧ Extracted.selSingularCore a = optCore a ∧
+    Extracted.selCategoryCore a = optCore a ∧ Extracted.selShortcutCore a = optCore a := by
+  rcases a with ⟨x, y⟩; cases x <;> cases y <;> decide
+
+theorem selector_version_eq (a : VersionAtoms) : Extracted.selVersionCore a = versionCore a := by
+  rcases a with ⟨x, y, z, w⟩; cases x <;> cases y <;> cases z <;> cases w <;> rfl
+
+theorem selector_any_eq (a : AnyAtoms) : Extracted.selAnyCore a = anyCore a := by
+  rcases a with ⟨a1, a2, a3, a4, a5, a6, a7, a8⟩
+  cases a1 <;> cases a2 <;> cases a3 <;> cases a4 <;> cases a5 <;> cases a6 <;> cases a7 <;> cases a8 <;> rfl
+
+theorem selector_fn_eq (a : FnAtoms) : Extracted.selFnCore a = fnCore a := by
+  rcases a with ⟨x, y, z, w⟩; cases x <;> cases y <;> cases z <;> cases w <;> rfl
+
+theorem selector_check_eq (a : CheckAtoms) : Extracted.selCheckCore a = checkCore a := by
+  rcases a with ⟨a1, a2, a3, a4, a5, a6, a7, a8, a9⟩
+  cases a1 <;> cases a2 <;> cases a3 <;> cases a4 <;> cases a5 <;> cases a6 <;> cases a7 <;> cases a8 <;>
+    cases a9 <;> rfl
+
 end Kopf.C15.Tie
